@@ -50,14 +50,15 @@ SAMED = lambda c: c.get('NA') == c.get('NB', 2)
 _h('nd_h2_h2', 'hybrid 2-d (capacity 9) pairs; ' + ND, unwind=12, dbg_kf=False)
 _h('nd_dimdiff', 'hybrid 2-d vs 1-d and 2-d vs 3-d; ' + ND, unwind=12, dbg=not _PENDING_ON, dbg_kf=False)   # asserts-on twin: the whole domain is inside the pending finding (dimension mismatch aborts)
 _h('nd_f23_h2', 'fixed_ndarray<unsigned,2,3> vs hybrid 2-d; ' + ND, unwind=12, dbg_kf=False)
-_h('nd_b_b', 'ndarray_t<static_vector<unsigned,9>, static_vector<size_t,3>> pairs, dims (NA,NB) per-query constants 1..3 (every unordered pair), product <= CAPB; ' + ND, unwind=7,
-   quick=[dict(d, CAPB=4, MAXE=4) for d in DIMS], thorough=[dict(d, CAPB=6, MAXE=3, _unwind=9) for d in DIMS], dbg_filter=SAMED)
+BIG = dict(_timeout=1800, _mem_gb=12)
+_h('nd_b_b', 'ndarray_t<static_vector<unsigned,9>, static_vector<size_t,3>> pairs, dims (NA,NB) per-query constants 1..3 (every unordered pair in the thorough tier), product <= CAPB; ' + ND, unwind=7,
+   quick=[dict(d, CAPB=4, MAXE=4) for d in DIMS if (d['NA'], d['NB']) in ((1, 2), (2, 2), (2, 3))], thorough=[dict(d, CAPB=4, MAXE=4) for d in DIMS] + [dict(d, CAPB=6, MAXE=3, _unwind=9, **BIG) for d in DIMS], dbg_filter=SAMED, mem_gb=8)
 _h('nd_d_d', 'ndarray_t<std::vector<unsigned>, std::vector<size_t>> pairs, dims (NA,NB) per-query constants 1..3, product <= CAPB; ' + ND, unwind=7,
-   quick=[dict(d, CAPB=4, MAXE=2) for d in DIMS], thorough=[dict(d, CAPB=4, MAXE=4) for d in DIMS], dbg_filter=SAMED, mem_gb=6)
-_h('nd_d_h2', 'dynamic (dim NA per-query constant 1..3) vs hybrid 2-d; ' + ND, unwind=7, quick=[{'NA': a, 'CAPB': 4, 'MAXE': 2} for a in (1, 2, 3)], thorough=[{'NA': a, 'CAPB': 4, 'MAXE': 4} for a in (1, 2, 3)], dbg_filter=SAMED, mem_gb=6)
-_h('close_h2_h2', 'isclose on hybrid float 2-d pairs; ' + FA + '; ' + ND, unwind=7, quick=[{'MAXE': 2, 'FALPHA': 1}], thorough=[{'MAXE': 2}], backend='cadical')
-_h('close_b_b', 'isclose on bounded-dim float arrays, dims (NA,NB) per-query constants (isclose of different dims aborts/returns false); ' + FA + '; ' + ND, unwind=7,
-   quick=[dict(d, CAPB=4, MAXE=2, FALPHA=1) for d in DIMS], thorough=[dict(d, CAPB=4, MAXE=2) for d in DIMS], backend='cadical', dbg_filter=SAMED)
+   quick=[], thorough=[dict(d, CAPB=4, MAXE=2, _timeout=1800, _mem_gb=14) for d in DIMS], dbg_filter=SAMED, optional=True)
+_h('nd_d_h2', 'dynamic (dim NA per-query constant 1..3) vs hybrid 2-d; ' + ND, unwind=7, quick=[], thorough=[dict(NA=a, CAPB=4, MAXE=2, _timeout=1800, _mem_gb=14) for a in (1, 2, 3)], dbg_filter=SAMED, optional=True)
+_h('close_h2_h2', 'isclose on hybrid float 2-d pairs; ' + FA + '; ' + ND, unwind=7, quick=[{'MAXE': 2, 'FALPHA': 1}], thorough=[dict(MAXE=2, **BIG)], backend='cadical')
+_h('close_b_b', 'isclose on bounded-dim float arrays, dims (NA,NB) per-query constants; ' + FA + '; ' + ND, unwind=7,
+   quick=[dict(NA=1, NB=1, CAPB=4, MAXE=2, FALPHA=1)], thorough=[dict(d, CAPB=4, MAXE=2, FALPHA=1, **BIG) for d in DIMS], backend='cadical', dbg_filter=SAMED, optional=True)
 _h('maybe', 'optional<static_vector> and utl::maybe<static_vector> pairs: has_value flags, lengths 0..4, values symbolic')
 _h('maybe_value', 'optional<static_vector> against a plain value and against Nothing; None/None')
 _h('close_maybe', 'isclose optional<float> pairs / against a value; ' + FA, dbg_kf=False, backend='cadical', quick=[{'FALPHA': 1}], thorough=[{}], dbg_quick=False)
@@ -69,7 +70,82 @@ _h('tuple', 'tuple<size_t x3> pairs, tuple/array', dbg_kf=False)
 _h('close_tuple', 'isclose tuple<float,float> pairs; ' + FA, dbg_kf=False, backend='cadical', quick=[{'FALPHA': 1}], thorough=[{}], dbg_quick=False)
 _h('tuple_mixed', 'tuple<size_t, static_vector, optional<static_vector>> pairs, all members symbolic')
 
-PENDING_FINDINGS = []
+# BEGIN PENDING_FINDINGS (generated from the replay files by the builder; one entry per harness that uses an exclusion macro)
+PENDING_FINDINGS = [
+ dict(id='F-C18-dbg-mismatch-aborts', harness='close_b_b_dbg', exclude_define='KF_C18_DBG_MISMATCH_ABORTS', witness_config={'NA': 1, 'NB': 1, 'CAPB': 4, 'MAXE': 2, 'FALPHA': 1, 'DBG': 1},
+      witness_inputs=['0x0', '0x2', '0x2', '0x2', '0x2', '0x2', '0x7', '0x7', '0x1', '0x7', '0x7', '0x1', '0x7', '0x7', '0x1', '0x7', '0x7', '0x1', '0x7', '0x7', '0x1', '0x7', '0x7', '0x1', '0x7', '0x7', '0x1', '0x7', '0x7', '0x1', '0x7', '0x7', '0x1', '0x7'],
+      what='asserts-on build: isequal/isclose of operands with different length / dimension / shape stops in assert() (abort) instead of returning false'),
+ dict(id='F-C18-close-either-drops-eps', harness='close_either_value', exclude_define='KF_C18_CLOSE_EITHER_DROPS_EPS', witness_config={'FALPHA': 1},
+      witness_inputs=['0x0', '0x3', '0x6', '0x6', '0x5', '0x0', '0x1', '0x7', '0x0'],
+      what='isclose(either, value, eps) and isclose(value, either, eps) ignore eps: the one-sided either branches call isclose without it (default 1e-6)'),
+ dict(id='F-C18-close-double-rounds-to-float', harness='close_f32_f64', exclude_define='KF_C18_CLOSE_DOUBLE_ROUNDS_TO_FLOAT', witness_config={},
+      witness_inputs=['0xffffffff00000000', '0x707ffffcffff7ff', '0x707ffffcffff7ff', '0x2'],
+      what='isclose on double operands rounds |a-b| to float (constexpr_fabs<Float=float>) before comparing with eps'),
+ dict(id='F-C18-close-double-rounds-to-float', harness='close_f64', exclude_define='KF_C18_CLOSE_DOUBLE_ROUNDS_TO_FLOAT', witness_config={},
+      witness_inputs=['0x81132c3a000000e9', '0x81132c39fffff708', '0x8e10000', '0x0'],
+      what='isclose on double operands rounds |a-b| to float (constexpr_fabs<Float=float>) before comparing with eps'),
+ dict(id='F-C18-dbg-mismatch-aborts', harness='close_h2_h2_dbg', exclude_define='KF_C18_DBG_MISMATCH_ABORTS', witness_config={'MAXE': 2, 'FALPHA': 1, 'DBG': 1},
+      witness_inputs=['0x1', '0x2', '0x2', '0x1', '0x7', '0x7', '0x1', '0x7', '0x7', '0x1', '0x7', '0x7', '0x1', '0x7', '0x7', '0x1', '0x7', '0x7', '0x1', '0x7', '0x7', '0x1', '0x7', '0x7', '0x1', '0x7', '0x7', '0x1', '0x7', '0x7', '0x1', '0x7'],
+      what='asserts-on build: isequal/isclose of operands with different length / dimension / shape stops in assert() (abort) instead of returning false'),
+ dict(id='F-C18-close-int-overflow', harness='close_int', exclude_define='KF_C18_CLOSE_INT_OVERFLOW', witness_config={},
+      witness_inputs=['0x8f2bc401', '0xb250c000', '0x0', '0x41c1927e00000000'],
+      what='isclose on int operands: the difference is converted to float (rounded beyond 2^24) and overflows int for far-apart values'),
+ dict(id='F-C18-close-int-overflow', harness='close_int_dbg', exclude_define='KF_C18_CLOSE_INT_OVERFLOW', witness_config={'DBG': 1},
+      witness_inputs=['0x8f2bc401', '0xb250c000', '0x0', '0x41c1927e00000000'],
+      what='isclose on int operands: the difference is converted to float (rounded beyond 2^24) and overflows int for far-apart values'),
+ dict(id='F-C18-close-unsigned-wraps', harness='close_uint', exclude_define='KF_C18_CLOSE_UNSIGNED_WRAPS', witness_config={},
+      witness_inputs=['0xdff7f012', '0xfff7f013', '0x0', '0x41e0000000000000'],
+      what='isclose on unsigned operands: t-u wraps when t<u (asymmetric, close pairs reported not close); difference rounded to float beyond 2^24'),
+ dict(id='F-C18-close-unsigned-wraps', harness='close_uint_dbg', exclude_define='KF_C18_CLOSE_UNSIGNED_WRAPS', witness_config={'DBG': 1},
+      witness_inputs=['0xdff7f012', '0xfff7f013', '0x0', '0x41e0000000000000'],
+      what='isclose on unsigned operands: t-u wraps when t<u (asymmetric, close pairs reported not close); difference rounded to float beyond 2^24'),
+ dict(id='F-C18-dbg-mismatch-aborts', harness='either_dbg', exclude_define='KF_C18_DBG_MISMATCH_ABORTS', witness_config={'DBG': 1},
+      witness_inputs=['0x2', '0x3', '0x1', '0x1', '0x1', '0x0', '0x0', '0x0', '0x0', '0x0', '0x0', '0x1', '0x0', '0x0', '0x1', '0x0', '0x0', '0x0', '0x1'],
+      what='asserts-on build: isequal/isclose of operands with different length / dimension / shape stops in assert() (abort) instead of returning false'),
+ dict(id='F-C18-dbg-mismatch-aborts', harness='either_value_dbg', exclude_define='KF_C18_DBG_MISMATCH_ABORTS', witness_config={'DBG': 1},
+      witness_inputs=['0x2', '0x4', '0x1', '0x0', '0x0', '0x1', '0x0', '0x0', '0x0', '0x0', '0x0', '0x1', '0x0', '0x0', '0x1', '0x0', '0x0', '0x0'],
+      what='asserts-on build: isequal/isclose of operands with different length / dimension / shape stops in assert() (abort) instead of returning false'),
+ dict(id='F-C18-dbg-mismatch-aborts', harness='idx_arr_sv_dbg', exclude_define='KF_C18_DBG_MISMATCH_ABORTS', witness_config={'N': 1, 'DBG': 1},
+      witness_inputs=['0x0', '0x0', '0x0', '0x0', '0x0', '0x0', '0x0', '0x0', '0x0', '0x1', '0x0', '0x0', '0x0'],
+      what='asserts-on build: isequal/isclose of operands with different length / dimension / shape stops in assert() (abort) instead of returning false'),
+ dict(id='F-C18-dbg-mismatch-aborts', harness='idx_arr_vec_dbg', exclude_define='KF_C18_DBG_MISMATCH_ABORTS', witness_config={'N': 1, 'DBG': 1},
+      witness_inputs=['0x3', '0x100000000', '0x100000000', '0x0', '0x2000', '0x0', '0x1', '0x0', '0x0', '0x1', '0x0', '0x0', '0x1'],
+      what='asserts-on build: isequal/isclose of operands with different length / dimension / shape stops in assert() (abort) instead of returning false'),
+ dict(id='F-C18-dbg-mismatch-aborts', harness='idx_sv_sv_dbg', exclude_define='KF_C18_DBG_MISMATCH_ABORTS', witness_config={'DBG': 1},
+      witness_inputs=['0x0', '0x4', '0x0', '0x1', '0x0', '0x0', '0x1', '0x0', '0x0', '0x1', '0x0', '0x1', '0x0', '0x0'],
+      what='asserts-on build: isequal/isclose of operands with different length / dimension / shape stops in assert() (abort) instead of returning false'),
+ dict(id='F-C18-eq-mixed-sign-truncates', harness='idx_svi_sv', exclude_define='KF_C18_EQ_MIXED_SIGN_TRUNCATES', witness_config={},
+      witness_inputs=['0x4', '0x4', '0x0', '0x0', '0x0', '0x80000000', '0xffffffff80000000', '0x0', '0x0', '0x0', '0x0', '0x0', '0x0', '0x0'],
+      what='isequal(int index array, size_t index array) casts the size_t side to int (promote_index_t picks the signed type): values >= 2^31 compare equal to their truncation'),
+ dict(id='F-C18-eq-mixed-sign-truncates', harness='idx_svi_sv_dbg', exclude_define='KF_C18_EQ_MIXED_SIGN_TRUNCATES', witness_config={'DBG': 1},
+      witness_inputs=['0x4', '0x4', '0x0', '0x0', '0x0', '0x80000000', '0xffffffff80000000', '0x0', '0x0', '0x0', '0x0', '0x0', '0x0', '0x0'],
+      what='isequal(int index array, size_t index array) casts the size_t side to int (promote_index_t picks the signed type): values >= 2^31 compare equal to their truncation'),
+ dict(id='F-C18-dbg-mismatch-aborts', harness='idx_vec_sv_dbg', exclude_define='KF_C18_DBG_MISMATCH_ABORTS', witness_config={'DBG': 1},
+      witness_inputs=['0x4', '0x0', '0x0', '0x0', '0x0', '0x0', '0x0', '0x0', '0x0', '0x0', '0x0', '0x0', '0x0', '0x0'],
+      what='asserts-on build: isequal/isclose of operands with different length / dimension / shape stops in assert() (abort) instead of returning false'),
+ dict(id='F-C18-dbg-mismatch-aborts', harness='idx_vec_vec_dbg', exclude_define='KF_C18_DBG_MISMATCH_ABORTS', witness_config={'DBG': 1},
+      witness_inputs=['0x2', '0x3', '0x0', '0x1', '0x0', '0x0', '0x1', '0x0', '0x1', '0x0', '0x0', '0x0', '0x1', '0x0'],
+      what='asserts-on build: isequal/isclose of operands with different length / dimension / shape stops in assert() (abort) instead of returning false'),
+ dict(id='F-C18-dbg-mismatch-aborts', harness='maybe_dbg', exclude_define='KF_C18_DBG_MISMATCH_ABORTS', witness_config={'DBG': 1},
+      witness_inputs=['0x0', '0x4', '0x1', '0x1', '0x1', '0x0', '0x0', '0x1', '0x0', '0x0', '0x1', '0x0', '0x0', '0x1', '0x0', '0x0'],
+      what='asserts-on build: isequal/isclose of operands with different length / dimension / shape stops in assert() (abort) instead of returning false'),
+ dict(id='F-C18-dbg-mismatch-aborts', harness='maybe_value_dbg', exclude_define='KF_C18_DBG_MISMATCH_ABORTS', witness_config={'DBG': 1},
+      witness_inputs=['0x0', '0x4', '0x1', '0x0', '0x1', '0x0', '0x0', '0x40000000000000', '0x0', '0x1', '0x0', '0x0', '0x0', '0x1', '0x0'],
+      what='asserts-on build: isequal/isclose of operands with different length / dimension / shape stops in assert() (abort) instead of returning false'),
+ dict(id='F-C18-dbg-mismatch-aborts', harness='tuple_mixed_dbg', exclude_define='KF_C18_DBG_MISMATCH_ABORTS', witness_config={'DBG': 1},
+      witness_inputs=['0x2', '0x0', '0x4', '0x4', '0x1', '0x1', '0x9f80000000000020', '0x9f80000000000000', '0x0', '0x0', '0x1000000000000000', '0x0', '0x8000000000000000', '0x0', '0x0', '0x1', '0x0', '0x0', '0x800', '0x0', '0x0', '0x1', '0x0', '0x0', '0x1', '0x0', '0x0', '0x1', '0x0', '0x0', '0x7fffffffffffffff', '0x7fffffffffffffff', '0x0'],
+      what='asserts-on build: isequal/isclose of operands with different length / dimension / shape stops in assert() (abort) instead of returning false'),
+ dict(id='F-C18-close-either-drops-eps', harness='close_either_value_dbg', exclude_define='KF_C18_CLOSE_EITHER_DROPS_EPS', witness_config={'FALPHA': 1, 'DBG': 1},
+      witness_inputs=['0x0', '0x3', '0x6', '0x6', '0x5', '0x0', '0x1', '0x7', '0x0'],
+      what='isclose(either, value, eps) and isclose(value, either, eps) ignore eps: the one-sided either branches call isclose without it (default 1e-6)'),
+ dict(id='F-C18-close-double-rounds-to-float', harness='close_f32_f64_dbg', exclude_define='KF_C18_CLOSE_DOUBLE_ROUNDS_TO_FLOAT', witness_config={'DBG': 1},
+      witness_inputs=['0xffffffff00000000', '0x707ffffcffff7ff', '0x707ffffcffff7ff', '0x2'],
+      what='isclose on double operands rounds |a-b| to float (constexpr_fabs<Float=float>) before comparing with eps'),
+ dict(id='F-C18-close-double-rounds-to-float', harness='close_f64_dbg', exclude_define='KF_C18_CLOSE_DOUBLE_ROUNDS_TO_FLOAT', witness_config={'DBG': 1},
+      witness_inputs=['0x81132c3a000000e9', '0x81132c39fffff708', '0x8e10000', '0x0'],
+      what='isclose on double operands rounds |a-b| to float (constexpr_fabs<Float=float>) before comparing with eps'),
+]
+# END PENDING_FINDINGS
 OUTSIDE = [
  'ndarray pairs backed by std::vector (ndarray_t<std::vector,std::vector>): quick tier limited to <= 4 cells with the dims as per-query constants; larger ones run out of memory (5.5 GB) - see the thorough tier',
  'views as operands (isequal(view, array)): not built into a harness',
